@@ -7,9 +7,10 @@ Import ListNotations.
 
 Definition is_context_of (k : key) (k' : key) : bool := match k' with [] => false | _ :: tl => key_eqb tl k end.
 
-Definition flat_hyp_check (t : atable) : bool :=
-  forallb (fun ke => Z.eqb (e_rest (snd ke)) (e_prob (snd ke))) t &&
+Definition rest_check (t : atable) : bool := forallb (fun ke => Z.eqb (e_rest (snd ke)) (e_prob (snd ke))) t.
+Definition ext_ctx_check (t : atable) : bool :=
   forallb (fun ke => implb (e_ext (snd ke) && Nat.leb 2 (length (fst ke))) (existsb (fun ke' => is_context_of (fst ke) (fst ke')) t)) t.
+Definition flat_hyp_check (t : atable) : bool := rest_check t && ext_ctx_check t.
 
 Lemma alookup_some_in : forall t k e, alookup t k = Some e -> In (k, e) t.
 Proof.
@@ -19,16 +20,23 @@ Proof.
   - right. apply IH. exact H.
 Qed.
 
+Theorem ext_ctx_check_sound : forall t, ext_ctx_check t = true ->
+  forall k e, alookup t k = Some e -> e_ext e = true -> 2 <= length k -> exists x, alookup t (x :: k) <> None.
+Proof.
+  intros t H2 k e Hk Hx Hl. unfold ext_ctx_check in H2. rewrite forallb_forall in H2.
+  specialize (H2 (k, e) (alookup_some_in t k e Hk)). cbn [fst snd] in H2. rewrite Hx in H2.
+  rewrite (proj2 (Nat.leb_le 2 (length k)) Hl) in H2. cbn [andb implb] in H2.
+  apply existsb_exists in H2. destruct H2 as [[k' e'] [Hin Hc]]. cbn [fst] in Hc. unfold is_context_of in Hc.
+  destruct k' as [|x tl]; [discriminate|]. apply key_eqb_true in Hc. subst tl. exists x.
+  apply alookup_in. unfold keys_of. apply in_map_iff. exists (x :: k, e'). split; [reflexivity|exact Hin].
+Qed.
+
 Theorem flat_hyp_check_sound : forall t, flat_hyp_check t = true ->
   (forall k e, alookup t k = Some e -> e_rest e = e_prob e) /\
   (forall k e, alookup t k = Some e -> e_ext e = true -> 2 <= length k -> exists x, alookup t (x :: k) <> None).
 Proof.
-  intros t H. unfold flat_hyp_check in H. apply andb_true_iff in H. destruct H as [H1 H2].
-  rewrite forallb_forall in H1, H2. split.
-  - intros k e Hk. specialize (H1 (k, e) (alookup_some_in t k e Hk)). cbn [snd] in H1. apply Z.eqb_eq. exact H1.
-  - intros k e Hk Hx Hl. specialize (H2 (k, e) (alookup_some_in t k e Hk)). cbn [fst snd] in H2. rewrite Hx in H2.
-    rewrite (proj2 (Nat.leb_le 2 (length k)) Hl) in H2. cbn [andb implb] in H2.
-    apply existsb_exists in H2. destruct H2 as [[k' e'] [Hin Hc]]. cbn [fst] in Hc. unfold is_context_of in Hc.
-    destruct k' as [|x tl]; [discriminate|]. apply key_eqb_true in Hc. subst tl. exists x.
-    apply alookup_in. unfold keys_of. apply in_map_iff. exists (x :: k, e'). split; [reflexivity|exact Hin].
+  intros t H. unfold flat_hyp_check in H. apply andb_true_iff in H. destruct H as [H1 H2]. split.
+  - unfold rest_check in H1. rewrite forallb_forall in H1.
+    intros k e Hk. specialize (H1 (k, e) (alookup_some_in t k e Hk)). cbn [snd] in H1. apply Z.eqb_eq. exact H1.
+  - exact (ext_ctx_check_sound t H2).
 Qed.
